@@ -36,10 +36,11 @@ def run(cmd):
 
 
 class Insn:
-    __slots__ = ("addr", "mn", "ops", "reloc", "raw", "size")
+    __slots__ = ("addr", "mn", "ops", "reloc", "raw", "size", "reloc_addr", "reloc_type")
 
     def __init__(self, addr, mn, ops, raw):
         self.addr, self.mn, self.ops, self.raw, self.reloc, self.size = addr, mn, ops, raw, None, 0
+        self.reloc_addr = self.reloc_type = None
 
 
 def split_ops(s):
@@ -81,6 +82,8 @@ class Obj:
             m = re.match(r"^\s+([0-9a-f]+):\s+(IMAGE_REL_\w+|R_X86_64_\w+)\s+(\S+)", line)
             if m and last is not None:
                 last.reloc = m.group(3)
+                last.reloc_addr = int(m.group(1), 16)
+                last.reloc_type = m.group(2)
                 continue
             m = re.match(r"^\s+([0-9a-f]+):\s*\t([a-z0-9]+)(?:\t(.*))?$", line)
             if m and cur is not None:
